@@ -341,6 +341,7 @@ func (b *decoBatch) Commit(ctx context.Context) error {
 	n := b.d.commits
 	b.d.commits++
 	b.rec.CommitStep = vrt.Steps()
+	vrt.Mark() // the order of commits relative to calls and returns is observed by the oracles
 	fk := NoFault
 	if b.d.CommitFault != nil {
 		fk = b.d.CommitFault(n, b.rec)
